@@ -1,7 +1,7 @@
 #!/bin/bash
 # usage: confirm_mutant.sh <ID> <k>     (agent output in /tmp/wt/<ID>.out/patch<k>.diff, demo<k>.rs)
 # Confirms in a scratch worktree: patch applies, compiles (both cfgs), demo passes without / fails with the patch, suite passes with it.
-ID=$1; K=$2; OUT=/tmp/wt/$ID.out; W=/tmp/confirm/$ID-$K
+ID=$1; K=$2; SUF=${3:-out}; OUT=/tmp/wt/$ID.$SUF; W=/tmp/confirm/$ID-$K-$SUF
 export CARGO_NET_OFFLINE=true CARGO_TARGET_DIR=/tmp/confirm/target
 mkdir -p /tmp/confirm
 git -C /repo worktree remove --force $W 2>/dev/null
